@@ -217,6 +217,11 @@ func c14Classes(dom []octosql.Value) []int {
 
 // all valid histories of length 1..maxLen over dom
 func c14Enumerate(w *bufio.Writer, op string, d c14Desc, dom []octosql.Value, maxLen int) {
+	c14EnumerateFrom(w, op, d, dom, 1, maxLen)
+}
+
+// all valid histories of length minLen..maxLen over dom
+func c14EnumerateFrom(w *bufio.Writer, op string, d c14Desc, dom []octosql.Value, minLen, maxLen int) {
 	cls := c14Classes(dom)
 	enc := make([]string, len(dom))
 	for i, v := range dom {
@@ -226,7 +231,7 @@ func c14Enumerate(w *bufio.Writer, op string, d c14Desc, dom []octosql.Value, ma
 	var steps []string
 	var rec func()
 	rec = func() {
-		if len(steps) > 0 {
+		if len(steps) >= minLen {
 			fmt.Fprintf(w, "%s %s %d %d %s\n", op, d.name, d.idx, len(steps), strings.Join(steps, " "))
 		}
 		if len(steps) == maxLen {
@@ -291,6 +296,60 @@ func c14EdgeDomain(g *Gen, d c14Desc) []octosql.Value {
 	}
 }
 
+// n distinct values of the descriptor's argument type
+func c14WideDomain(g *Gen, d c14Desc, n int) []octosql.Value {
+	isSum := strings.HasPrefix(d.name, "sum") || strings.HasPrefix(d.name, "avg")
+	out := make([]octosql.Value, 0, n)
+	seen := map[string]bool{}
+	add := func(v octosql.Value) {
+		k := EncodeValue(v)
+		if !seen[k] {
+			seen[k] = true
+			out = append(out, v)
+		}
+	}
+	for len(out) < n {
+		switch d.arg {
+		case "Int":
+			if g.Chance(1, 2) {
+				add(octosql.NewInt(int64(g.Intn(4*n)) - int64(2*n)))
+			} else {
+				add(octosql.NewInt(int64(g.U64())))
+			}
+		case "Duration":
+			if g.Chance(1, 2) {
+				add(octosql.NewDuration(time.Duration(int64(g.Intn(4*n)) - int64(2*n))))
+			} else {
+				add(octosql.NewDuration(time.Duration(int64(g.U64()))))
+			}
+		case "Time":
+			add(octosql.NewTime(time.Unix(0, int64(g.Intn(4*n))-int64(2*n)).In(locOf(Pick(g, []int{0, 1, 2, 103})))))
+		case "Float":
+			if isSum {
+				add(octosql.NewFloat(float64(int64(g.Intn(1<<28))-(1<<27)) / 1024))
+			} else if g.Chance(1, 8) {
+				add(f64(Pick(g, edgeFloats)))
+			} else {
+				add(f64(g.U64()))
+			}
+		default:
+			switch g.Intn(5) {
+			case 0:
+				add(octosql.NewInt(int64(g.Intn(4*n)) - int64(2*n)))
+			case 1:
+				add(f64(g.U64()))
+			case 2:
+				add(octosql.NewString(strconv.Itoa(g.Intn(4 * n))))
+			case 3:
+				add(octosql.NewList(ints(int64(g.Intn(30)), int64(g.Intn(30)))))
+			default:
+				add(RandValue(g, 2))
+			}
+		}
+	}
+	return out
+}
+
 // a random history over dom: mostly valid (retractions drawn from what is present), `invalidEvery` > 0
 // inserts a retraction of an absent value now and then (the model must still mirror the code there).
 func c14RandomHistory(g *Gen, dom []octosql.Value, n int, retractPct int, invalid bool) []string {
@@ -337,18 +396,29 @@ func genC14(g *Gen, tier string, w *bufio.Writer) {
 	fmt.Fprintln(w, "desc sum 3")
 	fmt.Fprintln(w, "desc median 0")
 
-	// 1. exhaustive: every valid history up to length L over 4-value domains
+	// 1. exhaustive: every valid history up to length L over small domains.
+	//    quick:    L<=5 over the first 4-value domain, L<=4 over the further ones
+	//    thorough: L<=6 over the first 4-value domain, L<=7 over its 3-value sub-domain (values 1..3) and, for three
+	//              representative descriptors, L<=7 over all 4 values; L<=5 over the further domains
 	for _, d := range descs {
 		doms := c14SmallDomains(d)
 		for k, dom := range doms {
 			L := 5
 			if thorough {
-				L = 7
+				L = 6
 				if k > 0 {
-					L = 6
+					L = 5
 				}
 			} else if k > 0 {
 				L = 4
+			}
+			if thorough && k == 0 {
+				full7 := (d.name == "count" && d.idx == 0) || (d.name == "array_agg_distinct" && d.idx == 0) || (d.name == "min" && d.idx == 1)
+				if full7 {
+					L = 7
+				} else {
+					c14EnumerateFrom(w, "hist", d, dom[1:], 7, 7)
+				}
 			}
 			c14Enumerate(w, "hist", d, dom, L)
 		}
@@ -364,7 +434,7 @@ func genC14(g *Gen, tier string, w *bufio.Writer) {
 	// 2. random long histories over edge-heavy domains, Trigger() after every step
 	nLong, maxLen := 12, 300
 	if thorough {
-		nLong, maxLen = 60, 1000
+		nLong, maxLen = 60, 400
 	}
 	for _, d := range descs {
 		for i := 0; i < nLong; i++ {
@@ -387,6 +457,21 @@ func genC14(g *Gen, tier string, w *bufio.Writer) {
 			invalid := i%6 == 5
 			steps := c14RandomHistory(g, dom, n, 30+g.Intn(30), invalid)
 			fmt.Fprintf(w, "%s %s %d %d %s\n", op, d.name, d.idx, len(steps), strings.Join(steps, " "))
+		}
+	}
+
+	// 2b. wide histories: hundreds of distinct values present at once, so that the btree (degree 128: nodes split
+	//     above 255 items) and the hashmap (growth, tombstones) of the real code are exercised; Trigger() at the end
+	nWide, wideLen := 3, 2500
+	if thorough {
+		nWide, wideLen = 20, 4000
+	}
+	for _, d := range descs {
+		for i := 0; i < nWide; i++ {
+			dom := c14WideDomain(g, d, 300+g.Intn(500))
+			n := wideLen/2 + g.Intn(wideLen/2)
+			steps := c14RandomHistory(g, dom, n, 25+g.Intn(25), false)
+			fmt.Fprintf(w, "hist %s %d %d %s\n", d.name, d.idx, len(steps), strings.Join(steps, " "))
 		}
 	}
 
